@@ -29,10 +29,12 @@ class Model:
     def __init__(self):
         self.validated = {}     # flow id -> cookie
         self.stream = {}        # flow id -> first bytes of the accepted stream
+        self.base = 0           # connections of other clients already in the table (busy responder)
 
     def reset(self):
         self.validated = {}
         self.stream = {}
+        self.base = 0
 
 
 def fid(e, sp, dp):
@@ -207,7 +209,7 @@ def script(ctx, cfg, model, cookies):
             ctx.violation(e_.split(" ")[0], e_ + "; segment " + pkt.summary(f), observed=r.reply.hex() if r.reply else r.kind,
                           expected="reply" if should_accept else "silence")
         # table size = number of distinct validated cookies
-        want_t = len(set(c for c in model.validated.values()))
+        want_t = model.base + len(set(c for c in model.validated.values()))
         if r.kind != "P" and r.table != want_t and None not in model.validated.values():
             ctx.violation("table_size", "connection table holds %d entries, model says %d" % (r.table, want_t), observed=r.table, expected=want_t)
         s["seq"] = (s["seq"] + len(pl)) & 0xFFFFFFFF
@@ -337,13 +339,25 @@ def shard(ctx, budget_s):
         boundary_cookies(ctx)
     n = 0
     while time.time() < deadline or n == 0:
-        cfg = gen.rnd_config(rng, deny=False, logger="n", level=0)
+        cfg = gen.rnd_config(rng, deny=False, logger=rng.choice("nnnncl"), level=rng.choice([0, 0, 2, 3, 4, 5]))
         ctx.case(cfg)
         model, cookies = Model(), {}
         for _ in range(20):
             ctx.case(reset=True)
             model.reset()
+            nv = len(ctx.violations)
+            busy = rng.random() < 0.08
+            if busy:
+                # the same script on a responder that already holds thousands of other clients' connections
+                from ..applab import AppLab
+                model.base = AppLab(ctx, cfg).crowd(rng.choice([300, 4200, 4200, 9000]), payload=[b"x", b"GET /"])
+                crowd_cookies = dict(ctx.cookie_owner)
+                ctx.stats["busy_scripts"] += 1
             word, acc, rej = script(ctx, cfg, model, cookies)
+            if busy and len(ctx.violations) > nv and any(crowd_cookies.get(c, t) != t for t, c in cookies.items() if c is not None):
+                # a script flow drew the cookie of one of the crowd's connections (table keyed by cookie: the recorded finding)
+                del ctx.violations[nv:]
+                ctx.stats["cookie_collisions_avoided"] += 1
             ctx.stats["scripts"] += 1
             ctx.stats["accepted"] += acc
             ctx.stats["rejected"] += rej
